@@ -1,6 +1,6 @@
 import Autd3.Model.Silencer
 import Autd3.Drv.Common
-/-! `silencer` stream: `new <P|I> <fixed 0|1> <value> <initial>` / `apply <t>…` -/
+/-! `silencer` stream: `new <P|I> <fixed 0|1> <value> <initial>` / `apply <t>…` / `handover <fixed 0|1> <value>` -/
 namespace Autd3.Drv.C09
 open Autd3.Silencer Autd3.Drv
 
@@ -17,6 +17,12 @@ def step (st : St) (line : String) : St × String :=
     | some [f, v, i] =>
       if (k = "P" ∨ k = "I") ∧ f ≤ 1 ∧ 0 < v ∧ v < 65536 ∧ i < 256 then
         ({ phase := k = "P", sil := Sil.new (f = 1) v i }, "ok")
+      else (st, "bad-op")
+    | _ => (st, "bad-op")
+  | ["handover", f, v] =>
+    match nats [f, v] with
+    | some [f, v] =>
+      if f ≤ 1 ∧ 0 < v ∧ v < 65536 then ({ st with sil := st.sil.continueWith (f = 1) v }, "ok")
       else (st, "bad-op")
     | _ => (st, "bad-op")
   | "apply" :: ts =>
